@@ -1,6 +1,139 @@
 import Infretis.Model.Proto
-open Infretis.Proto
+import Infretis.Model.Vel
+open Infretis Infretis.Proto Infretis.Vel
 
-def handle (_toks : List String) : String := "bad-op"
+/-
+Line protocol of C16 (one request per line):
+
+  mod <engine> <vKin> <vRng> <T> <boltzmann> <zm:-|0|1> <sysEkin:-|rat> <massIn:list rat>
+      <tmplBox:list rat> <sig:list rat> <cols z> <cols srcVel> <cols pos> <box:-|list rat> <ids:list nat>
+    cols X := n X₁ … Xₙ with each Xᵢ a `list rat` (one column of a (npart, n) array)
+  answer: stream method loc npart dim scaleSq | momSq | mass | beta | kinOld | kinNew | dek | vel | pos | box | ids
+
+  shoot <engine> <vKin> <vRng> <idx:-|nat> <sameConf:0|1>
+    runs prepareShootingPoint on a two-frame file and one System; answers which attributes of the
+    copy differ from the source, whether the source object/arrays/files are unchanged
+-/
+
+def parseEngine : String → Option Engine
+  | "gromacs" => some .gromacs | "cp2k" => some .cp2k | "lammps" => some .lammps
+  | "ase" => some .ase | "turtlemd" => some .turtlemd | _ => none
+
+def parseVariant : String → Option Variant
+  | "asIs" => some .asIs | "repaired" => some .repaired | _ => none
+
+def parseOptRat (s : String) : Option (Option Rat) :=
+  if s = "-" then some none else (parseRat? s).map some
+
+def parseOptBool : String → Option (Option Bool)
+  | "-" => some none | "0" => some (some false) | "1" => some (some true) | _ => none
+
+/-- n columns, each a length-prefixed list of rationals -/
+def takeCols : Nat → List String → Option (List (List Rat) × List String)
+  | 0, rest => some ([], rest)
+  | n + 1, rest =>
+    match takeList parseRat? rest with
+    | none => none
+    | some (c, rest) =>
+      match takeCols n rest with
+      | none => none
+      | some (cs, rest) => some (c :: cs, rest)
+
+def takeColsP : List String → Option (List (List Rat) × List String)
+  | [] => none
+  | n :: rest => match parseNat? n with
+    | none => none
+    | some k => takeCols k rest
+
+def takeOptList : List String → Option (Option (List Rat) × List String)
+  | "-" :: rest => some (none, rest)
+  | rest => (takeList parseRat? rest).map (fun (l, r) => (some l, r))
+
+def showRats (l : List Rat) : String := showList showRat l
+def showCols (c : List (List Rat)) : String :=
+  toString c.length ++ (c.foldl (fun acc x => acc ++ " " ++ showRats x) "")
+def showOptRats : Option (List Rat) → String
+  | none => "-" | some l => showRats l
+def showDek : Dek → String
+  | .inf => "inf" | .val q => showRat q
+def showStream : Stream → String
+  | .engineRgen => "rgen" | .numpyGlobal => "global"
+
+def handleMod (toks : List String) : Option String := do
+  match toks with
+  | eng :: vk :: vr :: t :: b :: zm :: ek :: rest =>
+    let eng ← parseEngine eng
+    let vk ← parseVariant vk
+    let vr ← parseVariant vr
+    let t ← parseRat? t
+    let b ← parseRat? b
+    let zm ← parseOptBool zm
+    let ek ← parseOptRat ek
+    let (massIn, rest) ← takeList parseRat? rest
+    let (tmpl, rest) ← takeList parseRat? rest
+    let (sig, rest) ← takeList parseRat? rest
+    let (z, rest) ← takeColsP rest
+    let (sv, rest) ← takeColsP rest
+    let (pos, rest) ← takeColsP rest
+    let (box, rest) ← takeOptList rest
+    let (ids, rest) ← takeList parseNat? rest
+    if rest ≠ [] then none
+    let s : Setup := { engine := eng, temperature := t, boltzmann := b, massIn := massIn, tmplBox := tmpl }
+    let src : Frame := { pos := pos, vel := sv, box := box, ids := ids }
+    let r := modifyVelocities vk vr s src ek zm sig z
+    let q := r.request
+    let momSq := match eng with | .ase => aseMomSq s | _ => []
+    some (String.intercalate " | " [
+      s!"{showStream q.stream} {q.method} {showRat q.loc} {q.npart} {q.dim} {showOptRats q.scaleSq}",
+      showRats momSq, showRats (mass s), showRat (beta s),
+      (match r.kinOld with | none => "-" | some k => showRat k),
+      showRat r.kinNew, showDek r.dek, showCols r.frame.vel, showCols r.frame.pos,
+      showOptRats r.frame.box, showList toString r.frame.ids])
+  | _ => none
+
+def diffSys (a b : Sys) : String :=
+  String.intercalate "," (
+    (if a.config ≠ b.config then ["config"] else []) ++
+    (if a.order ≠ b.order then ["order"] else []) ++
+    (if a.pos ≠ b.pos then ["pos"] else []) ++
+    (if a.vel ≠ b.vel then ["vel"] else []) ++
+    (if a.box ≠ b.box then ["box"] else []) ++
+    (if a.temperature ≠ b.temperature then ["temperature"] else []) ++
+    (if a.velRev ≠ b.velRev then ["vel_rev"] else []) ++
+    (if a.ekin ≠ b.ekin then ["ekin"] else []) ++
+    (if a.vpot ≠ b.vpot then ["vpot"] else []))
+
+def handleShoot (toks : List String) : Option String := do
+  match toks with
+  | [eng, vk, vr, idx, sameConf] =>
+    let eng ← parseEngine eng
+    let vk ← parseVariant vk
+    let vr ← parseVariant vr
+    let idx : Option Nat ← (if idx = "-" then some none else (parseNat? idx).map some)
+    let fr0 : Frame := { pos := [[0, 1], [0, 0], [0, 0]], vel := [[1, 0], [0, 2], [0, 0]], box := some [9, 9, 9], ids := [1, 2] }
+    let fr1 : Frame := { pos := [[2, 3], [0, 0], [1, 0]], vel := [[0, 1], [1, 0], [0, 0]], box := some [9, 9, 9], ids := [1, 2] }
+    let srcFile := if sameConf = "1" then 100 else 7
+    let sp : Sys := { config := (srcFile, idx), order := 0, pos := 1, vel := 1, box := 2, temperature := 3,
+                      velRev := true, ekin := some 5, vpot := some (-3) }
+    let h : Heap := { systems := [sp], objs := [[1 / 2], [], [0, 0, 0], []], files := [(srcFile, [fr0, fr1])] }
+    let s : Setup := { engine := eng, temperature := 300, boltzmann := 1, massIn := [1, 2], tmplBox := [30, 30, 30] }
+    match prepareShootingPoint vk vr s h 0 100 101 (some true) [1, 1] [[1, 0], [0, 1], [1, 1]] [7 / 10] with
+    | .error .nofile => some "err:nofile"
+    | .error .index => some "err:index"
+    | .ok sh =>
+      let srcSame : Bool := decide (sh.heap.systems[0]? = some sp)
+      let objsSame : Bool := decide (sh.heap.objs.take h.objs.length = h.objs)
+      let fileSame : Bool := decide (sh.heap.readFile srcFile = h.readFile srcFile)
+      let cp := sh.heap.systems[sh.copy]?
+      let d := match cp with | some c => diffSys sp c | none => "?"
+      let nconf := match sh.heap.readFile 100 with | some l => l.length | none => 0
+      some s!"copy@{sh.copy} nsys={sh.heap.systems.length} changed={d} src_same={srcSame} objs_same={objsSame} srcfile_same={fileSame} conf_frames={nconf}"
+  | _ => none
+
+def handle (toks : List String) : String :=
+  match toks with
+  | "mod" :: rest => (handleMod rest).getD "bad-op"
+  | "shoot" :: rest => (handleShoot rest).getD "bad-op"
+  | _ => "bad-op"
 
 def main : IO Unit := mainWith handle
